@@ -153,6 +153,7 @@ type Sim struct {
 	deepYields                              int
 	longYields                              int
 	yieldWindow, deepInWindow, longInWindow int
+	dbClosed                                map[*badger.DB]bool
 	trackItems                              bool            // record which item changes the applied partition entries carry
 	appliedItems                            map[string]bool // "kind/item id/version" of every item change some replica applied
 	rfault                                  *simrt.Rand
@@ -325,6 +326,7 @@ func newSim(cfg W3Cfg, out *Outcome, wantLog bool) *Sim {
 	s.rnet = root.Split("net")
 	s.rburst = root.Split("burst")
 	s.appliedItems = map[string]bool{}
+	s.dbClosed = map[*badger.DB]bool{}
 	s.rfault = root.Split("fault")
 	s.ryield = root.Split("yield")
 	seedRuntime(cfg.Seed)
@@ -351,13 +353,17 @@ func newSim(cfg W3Cfg, out *Outcome, wantLog bool) *Sim {
 		if yp > 0 || deep > 0 {
 			// a function of the seed, the goroutine's label and its own draw count: no shared stream
 			z := mix64(yseed ^ runtimeVerifGetTag()*0x9e3779b97f4a7c15 ^ runtimeVerifNextCount()<<20 ^ uint64(site))
-			if deep > 0 && int((z>>16)%1024) < deep {
+			dp := deep
+			if site == -100 {
+				dp = deep / 8 // function entries are many: a smaller share each
+			}
+			if dp > 0 && int((z>>16)%1024) < dp {
 				// budgets per 4 simulated seconds, so that late phases of a run get their share
 				if w := int(time.Since(s.t0) / (4 * time.Second)); w != s.yieldWindow {
 					s.yieldWindow, s.deepInWindow, s.longInWindow = w, 0, 0
 				}
 			}
-			if deep > 0 && int((z>>16)%1024) < deep && s.deepInWindow < 400 {
+			if dp > 0 && int((z>>16)%1024) < dp && s.deepInWindow < 400 {
 				// everybody else runs until it blocks (whole chains of hand-offs: a raft message
 				// received, persisted and applied), then this goroutine goes on
 				s.deepYields++
@@ -370,7 +376,9 @@ func newSim(cfg W3Cfg, out *Outcome, wantLog bool) *Sim {
 					s.longYields++
 				}
 				time.Sleep(d)
-			} else if int(z%256) < yp {
+			} else if site != -100 && int(z%256) < yp {
+				runtime.Gosched()
+			} else if site == -100 && int(z%2048) < yp {
 				runtime.Gosched()
 			}
 		}
@@ -725,6 +733,7 @@ func (s *Sim) stopNode(n *simNode, crash bool) {
 	synctest.Wait()
 	delete(s.byDB, p.DB)
 	if !s.closing {
+		s.dbClosed[p.DB] = true
 		func() {
 			defer func() { recover() }()
 			p.DB.Close()
